@@ -165,7 +165,8 @@ class LRUTrieNode(object):
                 chunks = []
 
                 while True:
-                    data = struct.unpack(LRU_TRIE_NODE_FORMAT, self.storage.read())
+                    block += self.storage.block_size
+                    data = struct.unpack(LRU_TRIE_NODE_FORMAT, self.storage.read(block))
                     chars = data[LRU_TRIE_NODE_STEM]
 
                     chunks.append(chars)
